@@ -23,7 +23,6 @@ import (
 	"time"
 
 	"gitlab.com/yawning/obfs4.git/common/drbg"
-	"gitlab.com/yawning/obfs4.git/common/probdist"
 
 	"verif/memwire"
 	"verif/mon"
@@ -150,7 +149,11 @@ func runConn(c *mon.Case, r *mon.Run, dir string, p params) {
 		raw, _ := hex.DecodeString(sh.seed)
 		copy(b.Seed[:], raw)
 		ds, _ := drbg.SeedFromBytes(b.Seed[:])
-		_, _, vals, _, _, _ := probdist.New(ds, 0, 1448, p.biased).VerifTables()
+		vals, hooked := tableValues(ds, p.biased)
+		if !hooked {
+			r.Count("shaped_seed_unverifiable_without_the_probdist_hook", 1)
+			return
+		}
 		if len(vals) != 1 || vals[0] != sh.value {
 			r.Count("shaped_seed_skipped_"+p.shape, 1)
 			return
